@@ -6,6 +6,7 @@ Model of the parts of laspy's dimension views that contain logic of their own
 array is a delegation and is covered by the differential run only.
 -/
 import LasModel.Model.SubField
+import LasModel.Gen.Funs
 
 namespace LasModel.Views
 open LasModel.SubField
@@ -70,5 +71,26 @@ def listMin : List Int → Option Int
 /-- `ScaledArrayView.max` on a one-element dimension: scale the integer maximum -/
 def maxScaled (s o : Int) (xs : List Int) : Option Int := (listMax xs).map (applyInt s o)
 def minScaled (s o : Int) (xs : List Int) : Option Int := (listMin xs).map (applyInt s o)
+
+/-! operator methods: what the Python data model says each special method implements. The generated tables
+    (`Gen.Views`, from the source of `ArrayView`, `SubFieldView`, `ScaledArrayView`) say which operator each method
+    actually hands `np.array(self)` and the other operand to. -/
+
+/-- the binary operator a special method implements (Python data model) -/
+def pyOperator : String → Option String
+  | "__lt__" => some "<" | "__le__" => some "<=" | "__gt__" => some ">" | "__ge__" => some ">="
+  | "__eq__" => some "==" | "__ne__" => some "!=" | "__add__" => some "+" | "__sub__" => some "-"
+  | "__mul__" => some "*" | "__truediv__" => some "/" | "__floordiv__" => some "//"
+  | _ => none
+
+/-- the comparison a rich-comparison method stands for, as `operator.<name>` / `"__<name>__"` -/
+def cmpName : String → Option String
+  | "__lt__" => some "lt" | "__le__" => some "le" | "__gt__" => some "gt" | "__ge__" => some "ge"
+  | "__eq__" => some "eq" | "__ne__" => some "ne"
+  | _ => none
+
+/-- the operators the property quantifies over -/
+def propertyOperators : List String :=
+  ["__eq__", "__ne__", "__lt__", "__le__", "__gt__", "__ge__", "__add__", "__sub__", "__mul__", "__truediv__", "__floordiv__"]
 
 end LasModel.Views
